@@ -1,4 +1,4 @@
-HOOK_COMMITS = ["27ad88b", "955c941", "4436111", "27d3bdc", "cfd1fa3", "16566ab", "69a0f58", "1bdaa91", "ff29c2d", "bd5f6db", "8b6ad29", "f064c7d"]
+HOOK_COMMITS = ["27ad88b", "955c941", "4436111", "27d3bdc", "cfd1fa3", "16566ab", "69a0f58", "1bdaa91", "ff29c2d", "bd5f6db", "8b6ad29", "f064c7d", "70c5feb"]
 NOTES = ("Machine-checked proof in Lean 4 over a hand-written executable model of go-jsonrpc, tied to /repo on every run by "
          "(a) facts regenerated from the Go source with obligations re-checked by Lean and (b) a correspondence harness that "
          "runs the real library and the model's executable definitions on the same cases / replays implementation traces "
@@ -214,7 +214,7 @@ CHECKS = [
           "registered after its handler returned. Tie: regenerated skeletons of handleCall/cancelCtx/handleCtxAsync/doRequest + scenarios "
           "(subsets cancelled at four instants, a second connection, HTTP abort) whose server-connection hook traces are replayed through the "
           "model and compared with the contexts captured inside the real handlers."
-          " Also: subscriptions cancelled while their handler is still setting up, ids of every JSON type from a foreign peer, subscriptions ended by the server next to open ones.",
+          " Also: subscriptions cancelled while their handler is still setting up, ids of every JSON type from a foreign peer, subscriptions ended by the server next to open ones; a reverse call on a reconnected client cancelled after a handler of the previous connection with the same request id returned (Jrpc.Epoch: Epoch_cancel_reaches, Epoch_cancel_only; F18).",
   "design_ref": "DESIGN.md §6 C06",
   "note": TB + " HTTP cancellation is net/http's; honest-peer hypothesis for 'only if the caller cancelled'.",
   "technique": "Lean 4 theorems (frame lemma + cause invariant by induction over events) + regenerated skeleton facts + hook-trace inclusion"},
@@ -242,7 +242,11 @@ CHECKS = [
           "1,2,3,5 clients with identity-returning reverse handlers, sequential / parallel / nested / aliased / failing / missing reverse calls; "
           "loss (FIN, RST, close) before, during, inside the reverse request frame and inside the reverse response frame with the handler's or a "
           "background context; absence over HTTP and without the option; both endpoints of every connection replayed through Jrpc.Corr."
-          " Also: reverse notifications while the client goes away; reverse calls made by the handler of a notification.",
+          " Also: reverse notifications while the client goes away; reverse calls made by the handler of a notification."
+          " The answering side on a reconnecting client is Jrpc.Epoch (connection epoch, guarded response writer, handling map): "
+          "Epoch_answer_own — every response written on a connection under an id comes from the invocation started for the request with "
+          "that id which arrived on that connection — with the invariant proved for every event; scenario StaleAnswer (a handler of the "
+          "previous connection returns while the same id is pending on the new one), its serving-side trace replayed through op epoch (F18).",
   "design_ref": "DESIGN.md §6 C16",
   "note": TB,
   "technique": "Lean 4 theorems (frame/projection lemma over a product of LTSs, corollaries of the Corr invariants) + regenerated skeleton facts + hook-trace inclusion per endpoint + scenario monitors"},
